@@ -163,7 +163,7 @@ def run_property(pid, tier, seed, jobs=None):
     work = []
     bind_errors = []
     for k, c in reg.items():
-        if pid not in c.props and not any(pid in cl.props for cl in c.ensures):
+        if pid not in c.props and not any(pid in cl.props for cl in list(c.ensures) + [x for v in c.exc_ensures.values() for x in v]):
             continue
         try:
             for label, inst in instances(c):
